@@ -116,7 +116,7 @@ impl Functor<Ob, Op, Ob, Op> for LFunctor {
         self.0.object(o.0).iter().map(|&l| Ob(l)).collect::<Vec<_>>().into_iter()
     }
     fn map_operation(&self, a: &Op, source: &[Ob], target: &[Ob]) -> LOH {
-        to_lax_d(&self.0.operation(a.0, &unobs(source), &unobs(target)))
+        to_lax_d(&self.0.operation_cb(a.0, &unobs(source), &unobs(target)))
     }
     fn map_arrow(&self, f: &LOH) -> LOH {
         dyn_functor::define_map_arrow(self, f)
@@ -133,7 +133,7 @@ impl Functor<Ob, Op, Ob, Op> for LFunctorPending {
     }
     fn map_operation(&self, a: &Op, source: &[Ob], target: &[Ob]) -> LOH {
         let key = (a.0, unobs(source), unobs(target));
-        let d = self.0.operation(a.0, &key.1, &key.2);
+        let d = self.0.operation_cb(a.0, &key.1, &key.2);
         let q = self.1.get(&key).cloned().unwrap_or_default();
         to_lax(&Lax { d, q })
     }
@@ -150,13 +150,13 @@ impl open_hypergraphs::lax::optic::Optic<Ob, Op, Ob, Op> for LOptic {
         self.0.fwd.object(o.0).iter().map(|&l| Ob(l)).collect()
     }
     fn fwd_operation(&self, a: &Op, source: &[Ob], target: &[Ob]) -> LOH {
-        to_lax_d(&self.0.fwd.operation(a.0, &unobs(source), &unobs(target)))
+        to_lax_d(&self.0.fwd.operation_cb(a.0, &unobs(source), &unobs(target)))
     }
     fn rev_object(&self, o: &Ob) -> Vec<Ob> {
         self.0.rev.object(o.0).iter().map(|&l| Ob(l)).collect()
     }
     fn rev_operation(&self, a: &Op, source: &[Ob], target: &[Ob]) -> LOH {
-        to_lax_d(&self.0.rev.operation(a.0, &unobs(source), &unobs(target)))
+        to_lax_d(&self.0.rev.operation_cb(a.0, &unobs(source), &unobs(target)))
     }
     fn residual(&self, a: &Op) -> Vec<Ob> {
         // the lax trait keys residuals by the operation label only
